@@ -12,6 +12,7 @@ Streams
 """
 import itertools
 import re
+import unicodedata
 
 import common
 from common import short
@@ -112,7 +113,10 @@ def stream_match(ctx, reqs):
 # ----------------------------------------------------------------- stream: filter
 
 POOL = ['foo', 'Foo', 'FOO', 'fob', '_foo', '__foo', '__foo__', 'foo_bar', 'bar', 'Bar', '_', 'f',
-        'İx', 'ǅa', 'éa', 'Éa', 'fo', 'ofo']
+        'İx', 'ǅa', 'éa', 'Éa', 'fo', 'ofo',
+        # pairs that collide under one of CPython's case mappings but not character by character
+        # (lower / casefold / upper disagree or change the length)
+        'straße', 'strasse', 'Maß', 'mass', 'i\u0307x', 'ix', 'ŉa', 'ʼna', 'ǰa', 'λος', 'λοσ', 'ΛΟΣ']
 
 
 def run_filter_impl(names, like, fuzzy, imported, ci, bracket):
@@ -309,6 +313,107 @@ def gen_program(rng):
     return src, probes, '\n'.join(lines[:ndefs]) + '\n'
 
 
+# identifiers that collide under one of CPython's case mappings although they are different
+# identifiers character by character: (members of one scope, positions worth stopping at are found
+# from the characters whose lower()/casefold()/upper() is not one code point or disagree).
+# All members are valid identifiers and NFKC-stable (the compiler normalises identifiers, jedi does
+# not: not this property's business), so the program can be executed.
+FOLD_FAMILIES = [
+    ['straße', 'strasse', 'strassen', 'stadt'],
+    ['maß', 'mass', 'masse', 'Maß'],
+    ['größe', 'grösse', 'groß', 'gross', 'grosse'],
+    ['fuß', 'fuss', 'FUSS', 'fussel'],
+    ['İlk', 'i\u0307lke', 'ilk', 'ılk'],
+    ['λόγος', 'ΛΌΓΟΣ', 'λόγοσ', 'λόγοσα'],
+    ['ǰazz', 'jazz', 'ǰa'],
+    ['weiß', 'weiss', 'Weiss', 'weisse'],
+]
+
+
+def special_positions(name):
+    return [i for i, ch in enumerate(name)
+            if len({ch.lower(), ch.casefold(), ch.upper().lower()}) > 1
+            or any(len(f(ch)) != 1 for f in FOLDS)]
+
+
+def fold_fragments(rng, family):
+    """fragments a user may have typed for a member: stop just before / at / after a character
+    with a non-trivial case mapping, in the spelling of any member, in any case"""
+    out = []
+    for _ in range(4):
+        m = rng.choice(family)
+        pos = special_positions(m)
+        if pos and rng.random() < 0.8:
+            cut = min(len(m), max(0, rng.choice(pos) + rng.choice([0, 1, 1, 2, 2, 3])))
+        else:
+            cut = rng.randint(0, len(m))
+        if cut == 0 and rng.random() < 0.85:
+            cut = rng.randint(1, len(m))
+        frag = m[:cut]
+        r = rng.random()
+        if r < 0.12:
+            frag = frag.upper()
+        elif r < 0.24:
+            frag = frag.lower()
+        elif r < 0.3:
+            frag = frag.casefold()
+        elif r < 0.36:
+            frag = frag.swapcase()
+        if frag and not (frag.isidentifier() and frag == unicodedata.normalize('NFKC', frag)):
+            frag = m[:cut]
+        out.append(frag)
+    return out
+
+
+def gen_fold_program(rng):
+    """same contract as gen_program; every scope that is completed in (module, instance, class,
+    parameters) holds a whole family"""
+    fam = list(rng.choice(FOLD_FAMILIES))
+    rng.shuffle(fam)
+    lines = []
+    cls = rng.choice(['Adresse', 'Klass', 'Thing'])
+    split = rng.randint(0, len(fam))
+    lines.append('class %s:' % cls)
+    lines.append('    land = 1')
+    lines.append('    def __init__(self, ort):')
+    for a in fam[:split] or ['ort']:
+        lines.append('        self.%s = ort' % a)
+    for a in fam[split:]:
+        if rng.random() < 0.5:
+            lines.append('    def %s(self):' % a)
+            lines.append('        return 2')
+        else:
+            lines.append('    %s = %d' % (a, rng.randint(0, 9)))
+    inst = rng.choice(['adresse', 'obj', 'ding'])
+    lines.append('%s = %s(3)' % (inst, cls))
+    mods = [m for m in fam if rng.random() < 0.8]
+    for m in mods:
+        lines.append('%s = %d' % (m, rng.randint(0, 9)))
+    params = [m for m in fam if rng.random() < 0.7]
+    if params:
+        lines.append('def func(%s):' % ', '.join(params))
+        lines.append('    return 1')
+    ndefs = len(lines)
+    probes = []
+    for frag in fold_fragments(rng, fam):
+        lines.append('%s.%s' % (inst, frag))
+        probes.append((len(lines), len(inst) + 1 + len(frag), 'fold-attr', (inst, frag)))
+    if rng.random() < 0.5:
+        lines.append('%s.' % inst)
+        probes.append((len(lines), len(inst) + 1, 'attr', (inst, '')))
+    if mods:
+        for frag in fold_fragments(rng, mods)[:2]:
+            if frag:
+                lines.append(frag)
+                probes.append((len(lines), len(frag), 'fold-global', frag))
+    if params:
+        for frag in fold_fragments(rng, params)[:1]:
+            lines.append('func(%s' % frag)
+            probes.append((len(lines), 5 + len(frag), 'fold-call', frag))
+    src = '\n'.join(lines)
+    return src, probes, '\n'.join(lines[:ndefs]) + '\n'
+
+
 class Capture:
     """records the arguments of completion.filter_names during Script.complete"""
     def __init__(self):
@@ -345,6 +450,29 @@ def is_subseq(frag, s):
     return all(ch in it for ch in frag)
 
 
+FOLDS = (str.lower, str.upper, str.casefold)
+
+
+def caseless_eq(a, b):
+    """`a` and `b` are the same text up to case: equal under one of the case mappings Python has,
+    as whole strings or character by character (the property does not say which one)"""
+    if a == b or any(f(a) == f(b) for f in FOLDS):
+        return True
+    return len(a) == len(b) and all(x == y or any(f(x) == f(y) for f in FOLDS) for x, y in zip(a, b))
+
+
+def caseless_subseq(frag, name):
+    if any(is_subseq(f(frag), f(name)) for f in FOLDS):
+        return True
+    it = iter(name)
+    return all(any(caseless_eq(ch, x) for x in it) for ch in frag)
+
+
+def changes_length(s):
+    """a character of `s` lower-cases to more than one code point (U+0130 is the only one)"""
+    return any(len(ch.lower()) != 1 for ch in s)
+
+
 def oracle_check(ctx, src, line, col, fuzzy, frag, comps, how):
     """the property itself on the API-visible result. comps: list of Completion"""
     case = {'source': src, 'line': line, 'column': col, 'fuzzy': fuzzy}
@@ -363,17 +491,22 @@ def oracle_check(ctx, src, line, col, fuzzy, frag, comps, how):
             # positional-only convention, BaseTreeParamName.get_public_name) although the typed
             # fragment is a prefix of the real spelling
             case = dict(base_case, shape='dunder-parameter-shown-under-public-name')
+        elif changes_length(frag) or changes_length(name):
+            # root cause: filter_names matches on str.lower() of both sides, Completion._complete cuts
+            # name[len(fragment):]; `İ`.lower() has two code points, so a match of the lowered strings
+            # does not mean the first len(fragment) characters of the name are the fragment
+            case = dict(base_case, shape='lowercase-of-U+0130-has-two-code-points')
         if fuzzy:
-            if not is_subseq(frag.lower(), name.lower()):
+            if not caseless_subseq(frag, name):
                 ctx.fail('oracle', 'fuzzy completion is not a supersequence of the fragment', case,
                          observed=obs, how=how)
             if complete is not None:
                 ctx.fail('oracle', 'fuzzy completion has complete != None', case, observed=obs, how=how)
         else:
-            if not name.lower().startswith(frag.lower()):
+            if not caseless_eq(name[:len(frag)], frag):
                 ctx.fail('oracle', 'completion name does not start with the fragment', case,
                          observed=obs, how=how)
-            if complete is None or nws[:len(frag)].lower() != frag.lower() or nws[len(frag):] != complete:
+            if complete is None or not caseless_eq(nws[:len(frag)], frag) or nws[len(frag):] != complete:
                 ctx.fail('oracle', 'complete is not the missing suffix of name_with_symbols', case,
                          observed=obs, how=how)
         if plen != len(frag):
@@ -596,8 +729,10 @@ def stream_e2e(ctx, reqs):
     rng = ctx.subrng('e2e')
     cases = []
     nprog = ctx.size(40, 600)
-    for pi in range(nprog):
-        src, probes, defs_src = gen_program(rng)
+    nfold = ctx.size(14, 200)
+    frng = ctx.subrng('e2e-fold')
+    for pi in range(nprog + nfold):
+        src, probes, defs_src = gen_program(rng) if pi < nprog else gen_fold_program(frng)
         bracket = rng.random() < 0.2
         for (line, col, kind, meta) in probes:
             for fuzzy in ((False, True) if rng.random() < 0.5 else (False,)):
@@ -754,7 +889,7 @@ def compare(ctx, cases, answers):
                         seen.add((name, complete))
                         base = name[:-1] if name.endswith('=') else name
                         if req['ci']:
-                            ok = is_subseq(like.lower(), base.lower()) if fuzzy else base.lower().startswith(like.lower())
+                            ok = caseless_subseq(like, base) if fuzzy else caseless_eq(base[:len(like)], like)
                         else:
                             ok = is_subseq(like, base) if fuzzy else base.startswith(like)
                         if not ok:
